@@ -15,6 +15,8 @@ pub enum Un {
     CallS,
     CallFail,
     Neg,
+    /// `e +` with the right operand missing
+    PartialAdd,
 }
 
 #[derive(Clone, Copy, Debug, PartialEq, Eq)]
@@ -27,7 +29,7 @@ pub enum Bi {
     Chain,
 }
 
-pub const UNS: [Un; 8] = [
+pub const UNS: [Un; 9] = [
     Un::AssignX,
     Un::AssignY,
     Un::AddAssignX,
@@ -36,6 +38,7 @@ pub const UNS: [Un; 8] = [
     Un::CallS,
     Un::CallFail,
     Un::Neg,
+    Un::PartialAdd,
 ];
 pub const BIS: [Bi; 6] = [Bi::Add, Bi::And, Bi::Or, Bi::Div, Bi::Tuple, Bi::Chain];
 
@@ -65,6 +68,7 @@ pub fn mk_un(u: Un, e: Ast) -> Ast {
         Un::CallS => Ast::Call("s".into(), b),
         Un::CallFail => Ast::Call("fail".into(), b),
         Un::Neg => Ast::Pre(UnOp::Neg, b),
+        Un::PartialAdd => Ast::Partial(BinOp::Add, b),
     }
 }
 
@@ -133,7 +137,7 @@ pub fn has_assignment(a: &Ast) -> bool {
     match a {
         Ast::Var(_) | Ast::Lit(_) | Ast::Unit => false,
         Ast::Bin(_, l, r) => has_assignment(l) || has_assignment(r),
-        Ast::Pre(_, e) | Ast::Call(_, e) => has_assignment(e),
+        Ast::Pre(_, e) | Ast::Call(_, e) | Ast::Partial(_, e) => has_assignment(e),
         Ast::Asg(..) => true,
         Ast::Tuple(es) | Ast::Chain(es) => es.iter().any(has_assignment),
     }
